@@ -3,6 +3,14 @@
   fixes/rows/01..05 and fixes/cluster/01, 08 (pg_attribute through the real layouts) and 09 (rows of tables without
   columns)).
 
+  Remediation R6 (review findings B6, B14, C3, section "# C01"): the Spec no longer copies pgread's heuristics.  Four
+  recorded OPEN findings (fixes/cluster/known_findings.json) are carved out as explicit hypotheses — `Spec.TemplatesByName`
+  (C01-TPL: template database = name prefix instead of datistemplate), `Spec.A02Free` (A02: inline-compressed values are
+  dumped as their compressed bytes, out-of-line values as nil), `Spec.Cluster.Plain` (C01-SEG: rows in segment files
+  `<filenode>.N` are not read; C01-TBLSPC: relations outside the default tablespace are dumped without rows) — and the
+  table filter is covered where Go's Unicode case folding is the Spec's ASCII folding (`GoCase.FilterStable`, part of `DbDumpable`).  The scalar
+  decoder hypothesis `CatDec` is discharged for the composed model of DecodeType (`C01_catDec_real`, `C01_dump_real`).
+
   The model is parametric in the row reader `rr` (heap.go:ReadRows, area `rows`, whose refinement theorem is
   C03_file): the theorems here are about the catalog / filter / join / dump logic on top of ANY row reader.
 -/
@@ -10,6 +18,7 @@ import PgVerif.Proofs.ClusterClass
 import PgVerif.Proofs.ClusterTree
 import PgVerif.Proofs.ClusterHyp
 import PgVerif.Proofs.ClusterDroppedTie
+import PgVerif.Proofs.ClusterCatReal
 import PgVerif.Props.C10.Cluster
 import PgVerif.Props.C10.Rows
 import PgVerif.Gen.Cluster
@@ -90,7 +99,8 @@ rows with storage have pairwise distinct filenodes, relkind is a byte), then the
 returns are, with their oid, name, filenode and kind, exactly the tables of the specification's expected dump
 `Spec.expectedDb`: relkind `r`, relfilenode ≠ 0, not `pg_`-prefixed when skipping system tables, containing the
 lower-cased filter — each once, dead row versions ignored, in the same (filenode) order; for every iteration order
-of Go's table map, every pg_attribute content, every file reader and all options.
+of Go's table map, every pg_attribute content, every file reader and all options whose table filter is empty or ASCII
+on ASCII relation names (`GoCase.FilterStable`: beyond ASCII Go lower-cases by Unicode tables and the Spec is silent).
 
 `_partial`: the full `C01_dump` (below) also equates each table's columns (join of pg_attribute by relation oid,
 attnum > 0 in attnum order, layout choice) and rows (`Spec.expectedTable`) with the model's; this theorem is the part
@@ -99,9 +109,10 @@ theorem C01_dump_partial (rr : RowReader) (π : MapOrder TableInfo) (hπ : ∀ l
     (db : Spec.DbRow) (d : Spec.DbContent) (cd ad : Bytes) (reader : Option FileReader) (rows : List Row)
     (hr : rr cd schemaPGClass true = .ok rows) (hrows : rows.map infoOfRow = d.cls.live.map infoOfRel)
     (hnd : ((d.cls.live.filter (·.filenode != 0)).map (·.filenode)).Nodup) (hkind : ∀ r ∈ d.cls.live, r.kind < 256)
+    (hasc : GoCase.FilterStable o d.cls.live)
     (ts : List TableDump) (h : dumpDatabaseFromFiles rr π cd ad reader o = .ok ts) :
     ts.map tableKey = (Spec.expectedDb val o db d).tables.map tableKey := by
-  rw [dump_tables_of_live rr π hπ cd ad reader o rows d.cls.live hr hrows hnd hkind ts h, expectedDb_keys]
+  rw [dump_tables_of_live rr π hπ cd ad reader o rows d.cls.live hr hrows hnd hkind hasc ts h, expectedDb_keys]
 
 /-- the decidable side conditions of `C01_dump_partial` hold for a small pg_class (a table, an index, a view).  The
 reader hypothesis `hrows` (an equation between association lists keyed by string literals, which the kernel does
@@ -149,12 +160,13 @@ theorem C01_class_reader (dec : Dec) (hd : CatDec dec) (cls : HeapOf ClassRow)
 hypotheses): for every well-formed database content, every pg_attribute bytes, every file reader, iteration order
 and options. -/
 theorem C01_tables (dec : Dec) (hd : CatDec dec) (π : MapOrder TableInfo) (hπ : ∀ l, π l ~ l) (val : Spec.Val) (o : Options)
-    (l : Layout) (db : DbRow) (d : DbContent) (hwf : d.WF l) (ad : Bytes) (reader : Option FileReader) (ts : List TableDump)
+    (l : Layout) (db : DbRow) (d : DbContent) (hwf : d.WF l) (hasc : GoCase.FilterStable o d.cls.live) (ad : Bytes)
+    (reader : Option FileReader) (ts : List TableDump)
     (h : dumpDatabaseFromFiles (readRows dec) π (Spec.encHeapOf Spec.pgClassCols Spec.classVals d.cls) ad reader o = .ok ts) :
     ts.map tableKey = (Spec.expectedDb val o db d).tables.map tableKey := by
   obtain ⟨hcls, _, hkind, _⟩ := dbWF_parts l d hwf
   obtain ⟨rows, hr, hrows⟩ := readRows_class dec hd d.cls hcls hwf.2.2.2.2.2.2.1
-  exact C01_dump_partial (readRows dec) π hπ val o db d _ ad reader rows hr hrows hwf.2.2.1 hkind ts h
+  exact C01_dump_partial (readRows dec) π hπ val o db d _ ad reader rows hr hrows hwf.2.2.1 hkind hasc ts h
 
 /-- **ParsePGAttribute, every layout, hinted and chosen automatically.**  For every pg_attribute heap encoded in one of
 PostgreSQL's three real layouts (row versions live and dead, any number of pages, in ANY order; names NUL-free ≤ 63
@@ -203,63 +215,80 @@ catalog name, type oid and (for the type oids the specification names; the other
 PostgreSQL's type name. -/
 theorem C01_columns (dec : Dec) (hd : CatDec dec) (π : MapOrder TableInfo) (hπ : ∀ l, π l ~ l) (l : Layout)
     (d : DbContent) (o : Options) (db : DbRow) (val : Spec.Val) (reader : Option FileReader) (hwf : d.WF l)
-    (hs : SchemaOK l d.att o.pgVersion) (ts : List TableDump)
+    (hs : SchemaOK l d.att o.pgVersion) (hasc : GoCase.FilterStable o d.cls.live) (ts : List TableDump)
     (h : dumpDatabaseFromFiles (readRows dec) π (Spec.encHeapOf Spec.pgClassCols Spec.classVals d.cls)
           (Spec.encHeapOf (Spec.pgAttributeCols l) (Spec.attrVals l) d.att) reader o = .ok ts) :
     ts.map tableCols = (Spec.expectedDb val o db d).tables.map fun t => (tableKey t, t.columns) :=
-  dumpDatabase_columns dec hd π hπ l d o db val reader hwf hs ts h
+  dumpDatabase_columns dec hd π hπ l d o db val reader hwf hs hasc ts h
 
 /-- **Which databases are dumped.**  For every well-formed cluster (pg_database in the 12–14 or the 15–16 layout,
-live and dead rows, any number of pages) the databases DumpDataDir lists on the cluster's file tree are, with oid and
-name and in pg_database heap order, exactly the live databases whose name does not start with `template`, that equal
-the database filter if one is set, and that have a directory — whatever the table-level content, for every iteration
-order and all options. -/
-theorem C01_databases (dec : Dec) (hd : CatDec dec) (π : MapOrder TableInfo) (c : Cluster) (hwf : c.WF) (o : Options)
+live and dead rows, any number of pages) in which the databases whose name starts with `template` are exactly the
+`datistemplate` ones (`TemplatesByName`: open finding C01-TPL is about the others) and whose catalogs lie under `base/`
+(`Plain`): the databases DumpDataDir lists on the cluster's file tree are, with oid and name and in pg_database heap
+order, exactly the live non-template databases that equal the database filter if one is set and that have a directory —
+whatever the table-level content, for every iteration order and all options. -/
+theorem C01_databases (dec : Dec) (hd : CatDec dec) (π : MapOrder TableInfo) (c : Cluster) (hwf : c.WF)
+    (htpl : Spec.TemplatesByName c) (hplain : c.Plain) (o : Options)
     (val : Spec.Val) (r : DumpResult) (h : dumpDataDir (readRows dec) π (Spec.fsOf c) o = .ok (some r)) :
     r.map dbKey = (Spec.expectedDump val c o).map dbKey :=
-  dumpDataDir_databases dec hd π c o val (Spec.fsOf c) hwf (treeOf_fsOf c hwf.2.2.2.2.2.1) r h
+  dumpDataDir_databases dec hd π c o val (Spec.fsOf c) hwf (treeOf_fsOf c hwf.2.2.2.2.2.1 hplain) htpl r h
 
 /-- **Rows of one table = the live rows of its heap file, decoded.**  For a live ordinary table of a well-formed
 database whose attnums have no gaps (`RelReadable`), dumpTable called with the catalog's columns and a reader serving
 the encoded heap returns the specification's table: rows = the row versions of the heap whose own hint bits say live,
-in page then line-pointer order, each decoded to what was stored (`Spec.rowOf`: NULLs, every varlena form, attributes
-beyond the stored count; every column read at its catalog alignment — the former A03 —; the empty row `{}` for each live
-row of a table without columns — the former A01z), `RowCount` = their number; none when schema-only. -/
+in page then line-pointer order, each decoded to what was stored (`Spec.storedRow`: NULLs, short and long varlena
+headers, C strings, attributes beyond the stored count; every column read at its catalog alignment — the former A03 —; the
+empty row `{}` for each live row of a table without columns — the former A01z), `RowCount` = their number; none when
+schema-only.  Hypothesis `hinl` is the carve-out of the OPEN finding A02: no row of the heap holds an inline-compressed or
+an out-of-line (TOASTed) value — for those `Spec.storedRow` demands the original value and pgread reports the compressed
+bytes / nil (witness in known_findings.json). -/
 theorem C01_rows (dec : Dec) (l : Layout) (d : DbContent) (o : Options) (r : ClassRow) (rd : FileReader)
     (hr : r ∈ d.cls.live) (hkind : r.kind = 114) (hfn : r.filenode ≠ 0) (hwf : d.WF l)
     (hreader : o.listOnly = false →
       rd r.filenode = (d.heaps.lookup r.filenode).map (Spec.encRowPages (Spec.colsOfFilenode d r.filenode)))
     (hok : ∀ pages, d.heaps.lookup r.filenode = some pages → o.listOnly = false → pages ≠ [] → RelReadable d r)
+    (hinl : ∀ pages, d.heaps.lookup r.filenode = some pages → o.listOnly = false →
+      ∀ pg ∈ pages, ∀ row ∈ pg, row.vals.all Spec.inlineDatum = true)
     (t : TableDump)
     (h : dumpTable (readRows dec) r.filenode (infoOfRel r) ((Spec.userAttrs d.att r.oid).map attrInfoOf) (some rd) o = .ok t) :
     normTable t = Spec.expectedTable (varlenaVal dec) d o r :=
-  dumpTable_spec dec l d o r rd hr hkind hfn hwf hreader hok t h
+  dumpTable_spec dec l d o r rd hr hkind hfn hwf hreader hok hinl t h
 
-/-- **C01, in full: the dump of a cluster is the cluster's logical content.**  For every well-formed cluster `c`
-(`Spec.Cluster.WF`: PostgreSQL 12–16, any databases, relations of every kind, catalog and user heaps of live and dead
-row versions over any number of pages, inline values of every form), all options `o` (database filter, table filter,
-schema-only, skip-system, version hint), every iteration order of Go's maps and every scalar decoder that handles the
-catalog column types — provided every database that is dumped is `DbDumpable` (a version hint, if given, names the
-layout, and attstorage characters are legal; its dumped tables' attnums are dense; their files are theirs alone — no
-recorded finding is excluded any more):
+/-- **C01: the dump of a cluster is the cluster's logical content** — outside the classes of the four recorded open
+findings.  For every well-formed cluster `c` (`Spec.Cluster.WF`: PostgreSQL 12–16, any databases, relations of every kind,
+catalog and user heaps of live and dead row versions over any number of pages), all options `o` (database filter, table
+filter, schema-only, skip-system, version hint), every iteration order of Go's maps and every scalar decoder that handles
+the catalog column types (`CatDec`; the composed model of DecodeType does: `C01_dump_real`), provided
+  * `htpl` (carve-out of finding C01-TPL): the databases whose name starts with `template` are exactly those with
+    `datistemplate` set;
+  * `hplain` (carve-outs of C01-SEG and C01-TBLSPC): no heap is split into segment files and no relation lies outside
+    the default tablespace;
+  * for every database that is dumped: `A02Free` (carve-out of finding A02: no row of a table dumped with its rows holds an
+    inline-compressed or out-of-line value) and `DbDumpable` (no finding: a version hint, if given, names the layout, and
+    attstorage characters are legal; the dumped tables' attnums are dense; their files are theirs alone; the table filter,
+    if any, and the relation names are strings on which Go's `ToLower` is ASCII lower-casing — `GoCase.FilterStable`):
 whenever DumpDataDir on the cluster's file tree returns, its result is — database by database in pg_database order,
 table by table in filenode order, column by column, row by row — `Spec.expectedDump`: every non-template database
-passing the filter that has a directory; in it every ordinary table (relkind `r`, relfilenode ≠ 0) passing the
-system-table and name filters, each exactly once; its columns from the join of pg_attribute by relation oid (attnum
-> 0, attnum order); its rows exactly the live row versions of its heap file with the values that were stored
-(rendered by `varlenaVal dec`); `RowCount` = number of rows; no rows when schema-only.  (`normDb` blanks the type-name
-text of type oids the specification has no name for; for the others `C01_typenames` applies.) -/
+(`datistemplate` false) passing the filter that has a directory; in it every ordinary table (relkind `r` with a
+relfilenode of its own) passing the system-table and name filters, each exactly once; its columns from the join of
+pg_attribute by relation oid (attnum > 0, attnum order); its rows exactly the live row versions of its heap file with
+the values that were stored (rendered by `varlenaVal dec`); `RowCount` = number of rows; no rows when schema-only.
+(`normDb` blanks the type-name text of type oids the specification has no name for; for the others `C01_typenames`
+applies.) -/
 theorem C01_dump (dec : Dec) (hd : CatDec dec) (π : MapOrder TableInfo) (hπ : ∀ l, π l ~ l) (c : Cluster) (hwf : c.WF) (o : Options)
-    (hdump : ∀ db ∈ c.dbs.live, Spec.selectedDb o db = true → ∀ d, c.content.lookup db.oid = some d → DbDumpable c.layout d o)
+    (htpl : Spec.TemplatesByName c) (hplain : c.Plain)
+    (hdump : ∀ db ∈ c.dbs.live, Spec.selectedDb o db = true → ∀ d, c.content.lookup db.oid = some d →
+      DbDumpable c.layout d o ∧ Spec.A02Free d o)
     (r : DumpResult) (h : dumpDataDir (readRows dec) π (Spec.fsOf c) o = .ok (some r)) :
     r.map normDb = Spec.expectedDump (varlenaVal dec) c o :=
-  dumpDataDir_spec dec hd π hπ c o (Spec.fsOf c) hwf (treeOf_fsOf c hwf.2.2.2.2.2.1) hdump r h
+  dumpDataDir_spec dec hd π hπ c o (Spec.fsOf c) hwf (treeOf_fsOf c hwf.2.2.2.2.2.1 hplain) htpl hdump r h
 
 /-- … and DumpDataDir does return on such a tree (never the read error, never a fault) for every scalar decoder that
 returns on every input — so `C01_dump` is not vacuous. -/
 theorem C01_dump_returns (dec : Dec) (hd : CatDec dec) (htot : C10.Rows.TotalDec dec) (π : MapOrder TableInfo) (hπ : ∀ l, π l ~ l)
-    (c : Cluster) (hwf : c.WF) (o : Options)
-    (hdump : ∀ db ∈ c.dbs.live, Spec.selectedDb o db = true → ∀ d, c.content.lookup db.oid = some d → DbDumpable c.layout d o) :
+    (c : Cluster) (hwf : c.WF) (o : Options) (htpl : Spec.TemplatesByName c) (hplain : c.Plain)
+    (hdump : ∀ db ∈ c.dbs.live, Spec.selectedDb o db = true → ∀ d, c.content.lookup db.oid = some d →
+      DbDumpable c.layout d o ∧ Spec.A02Free d o) :
     ∃ r, dumpDataDir (readRows dec) π (Spec.fsOf c) o = .ok (some r) ∧ r.map normDb = Spec.expectedDump (varlenaVal dec) c o := by
   obtain ⟨r, hr⟩ := C10.Cluster.C10_total_dumpDataDir (readRows dec) (fun data cols vis => C10.Rows.C10_total_readRows dec htot data cols vis)
     π (Spec.fsOf c) o
@@ -267,7 +296,7 @@ theorem C01_dump_returns (dec : Dec) (hd : CatDec dec) (htot : C10.Rows.TotalDec
   | none =>
     exfalso
     unfold dumpDataDir at hr
-    rw [(treeOf_fsOf c hwf.2.2.2.2.2.1).global] at hr
+    rw [(treeOf_fsOf c hwf.2.2.2.2.2.1 hplain).global] at hr
     simp only at hr
     cases hp : parsePGDatabase (readRows dec) (Spec.encHeapOf (Spec.pgDatabaseCols c.pgVersion) (Spec.dbVals c.pgVersion) c.dbs) with
     | error e => simp [hp] at hr
@@ -276,20 +305,41 @@ theorem C01_dump_returns (dec : Dec) (hd : CatDec dec) (htot : C10.Rows.TotalDec
       cases hc : collectM (dumpDb (readRows dec) π (Spec.fsOf c) o) dbs with
       | error e => simp [hc] at hr
       | ok x => simp [hc] at hr
-  | some r => exact ⟨r, hr, C01_dump dec hd π hπ c hwf o hdump r hr⟩
+  | some r => exact ⟨r, hr, C01_dump dec hd π hπ c hwf o htpl hplain hdump r hr⟩
 
 /-- **The form checked at run time.**  Family `cluster_dump` evaluates `Model.ClusterHyp.dumpHypB` (the executable form
-of the `DbDumpable` hypothesis) on every generated cluster and option combination and tags the case `hyp:dump=ok`
-when it holds together with the Boolean mirror of `Cluster.WF`; on those cases the theorem says the model's dump is the
-specification's. -/
+of the hypotheses `TemplatesByName`, `Plain`, `A02Free` and `DbDumpable`) on every generated cluster and option
+combination and tags the case `hyp:dump=ok` when it holds together with the Boolean mirror of `Cluster.WF`; on those cases
+the theorem says the model's dump is the specification's.  The cases with `hyp:dump=no` carry the tag of the open finding
+they fall under (`kf:C01-TPL`, `kf:A02`, `kf:C01-SEG`, `kf:C01-TBLSPC`) or a label saying why the Spec is silent
+(`hint=wrong`, `case=nonascii`). -/
 theorem C01_dump_checked (dec : Dec) (hd : CatDec dec) (π : MapOrder TableInfo) (hπ : ∀ l, π l ~ l) (c : Cluster) (hwf : c.WF)
     (o : Options) (hb : Model.ClusterHyp.dumpHypB c o = true)
     (r : DumpResult) (h : dumpDataDir (readRows dec) π (Spec.fsOf c) o = .ok (some r)) :
     r.map normDb = Spec.expectedDump (varlenaVal dec) c o :=
-  C01_dump dec hd π hπ c hwf o (dumpHypB_sound c o hb) r h
+  C01_dump dec hd π hπ c hwf o (dumpHypB_sound c o hb).1 (dumpHypB_sound c o hb).2.1 (dumpHypB_sound c o hb).2.2 r h
 
 /-- the decoder the C01 families execute satisfies the decoder hypothesis -/
 theorem C01_catDec_local : CatDec LocalDec.dec := catDec_local
+
+/-- **The composed model of the real DecodeType satisfies the decoder hypothesis** (review finding B14): the closed
+model `decodeTypeC` (scalar switch + ranges + arrays with elements decoded by DecodeType + numeric + JSONB, Props/C10/Entry.lean)
+decodes the seven catalog column types as the catalog logic needs, for every choice of the three library renderers it
+leaves abstract. -/
+theorem C01_catDec_real (X : PgVerif.Proofs.Entry.Render) : CatDec (C10.Entry.rowsDec X) := catDec_rowsDec X
+
+/-- **C01 with the model of the real value decoder.**  `C01_dump` and `C01_dump_returns` instantiated with
+`rowsDec X` = the composed model of types.go:DecodeType: on every cluster and options as in `C01_dump`, DumpDataDir —
+catalog parsers, row reader AND value decoder all the models of the real code — returns, and returns the expected dump,
+each value rendered by the model of DecodeType applied to the bytes that were stored (what those renderings mean is
+C04–C07's business). -/
+theorem C01_dump_real (X : PgVerif.Proofs.Entry.Render) (π : MapOrder TableInfo) (hπ : ∀ l, π l ~ l) (c : Cluster) (hwf : c.WF)
+    (o : Options) (htpl : Spec.TemplatesByName c) (hplain : c.Plain)
+    (hdump : ∀ db ∈ c.dbs.live, Spec.selectedDb o db = true → ∀ d, c.content.lookup db.oid = some d →
+      DbDumpable c.layout d o ∧ Spec.A02Free d o) :
+    ∃ r, dumpDataDir (readRows (C10.Entry.rowsDec X)) π (Spec.fsOf c) o = .ok (some r) ∧
+      r.map normDb = Spec.expectedDump (varlenaVal (C10.Entry.rowsDec X)) c o :=
+  C01_dump_returns _ (catDec_rowsDec X) (C10.Entry.rowsDec_total X) π hπ c hwf o htpl hplain hdump
 
 /-! ### non-vacuity: a concrete cluster satisfies every hypothesis of `C01_dump` -/
 
@@ -336,9 +386,24 @@ theorem exCluster_WF : exCluster.WF := by
   subst this
   exact exDb_WF
 
-/-- the example database is dumpable without a version hint (automatic choice) and with the true one -/
-theorem exDb_dumpable (o : Options) (hv : o.pgVersion = 0 ∨ o.pgVersion = 14) : DbDumpable .v14 exDb o := by
-  refine ⟨?_, ?_, ?_⟩
+/-- the example database is dumpable without a version hint (automatic choice) and with the true one, for every ASCII
+table filter, and no value in it is compressed or out of line -/
+theorem exDb_dumpable (o : Options) (hv : o.pgVersion = 0 ∨ o.pgVersion = 14) (hf : Spec.asciiB o.tableFilter = true) :
+    DbDumpable .v14 exDb o ∧ Spec.A02Free exDb o := by
+  refine ⟨⟨?_, GoCase.filterStable_ascii _ _ hf (by decide), ?_, ?_⟩, ?_⟩
+  rotate_left 3
+  · intro _ r hr _ pages hp pg hpg row hrow
+    have hlive : exDb.cls.live = [{ oid := 16384, name := [116], kind := 114, filenode := 16390 }] := by decide
+    rw [hlive] at hr
+    have : r = { oid := 16384, name := [116], kind := 114, filenode := 16390 } := by simpa using hr
+    subst this
+    have hp' : pages = exHeap := by
+      have : exDb.heaps.lookup 16390 = some exHeap := rfl
+      rw [this] at hp; injection hp with hp; exact hp.symm
+    subst hp'
+    revert row
+    revert pg
+    decide
   · rcases hv with hv | hv <;> rw [hv]
     · exact Or.inr (Or.inr (Or.inr ⟨by decide, by decide⟩))
     · exact Or.inr (Or.inl ⟨by decide, by decide, rfl⟩)
@@ -359,9 +424,15 @@ theorem exDb_dumpable (o : Options) (hv : o.pgVersion = 0 ∨ o.pgVersion = 14) 
     rw [hu]
     exact ⟨rfl, rfl, trivial⟩
 
-example (o : Options) (hv : o.pgVersion = 0 ∨ o.pgVersion = 14) :
+example : Spec.TemplatesByName exCluster ∧ exCluster.Plain := by
+  refine ⟨?_, by decide⟩
+  unfold Spec.TemplatesByName Spec.isTemplateName
+  simp only [strBytes_eq]
+  decide
+
+example (o : Options) (hv : o.pgVersion = 0 ∨ o.pgVersion = 14) (hf : Spec.asciiB o.tableFilter = true) :
     ∀ db ∈ exCluster.dbs.live, Spec.selectedDb o db = true → ∀ d, exCluster.content.lookup db.oid = some d →
-      DbDumpable exCluster.layout d o := by
+      DbDumpable exCluster.layout d o ∧ Spec.A02Free d o := by
   intro db _ _ d hd
   have hlk : ∀ k, exCluster.content.lookup k = some d → d = exDb := by
     intro k hk
@@ -369,18 +440,19 @@ example (o : Options) (hv : o.pgVersion = 0 ∨ o.pgVersion = 14) :
     simp only [exCluster, List.mem_singleton, Prod.mk.injEq] at this
     exact this.2
   rw [hlk _ hd]
-  exact exDb_dumpable o hv
+  exact exDb_dumpable o hv hf
 
 /-- the run-time check accepts the example cluster (no hint; true hint with a table filter `T`) -/
 example : Model.ClusterHyp.dumpHypB exCluster {} = true ∧ Model.ClusterHyp.dumpHypB exCluster { pgVersion := 14, tableFilter := [84] } = true := by
-  simp only [Model.ClusterHyp.dumpHypB, Model.ClusterHyp.dumpableB, Spec.selectedDb, Spec.isTemplateName, Spec.selectedRel, strBytes_eq]
+  simp only [Model.ClusterHyp.dumpHypB, Model.ClusterHyp.dumpableB, Spec.selectedDb, Spec.TemplatesByName, Spec.isTemplateName,
+    Spec.A02Free, Spec.selectedRel, strBytes_eq]
   decide
 
 /-- … and the theorem's right-hand side on it is not trivial: database 5 with table `t`, two columns, one live row
 (the dead row and `template1` are not reported) -/
 example : ((Spec.expectedDump (fun b _ => pure (.int b.length)) exCluster {}).map fun d =>
       (d.oid, d.tables.map fun t => (t.name, t.columns.length, t.rowCount))) = [(5, [([116], 2, 1)])] := by
-  delta Spec.expectedDump Spec.expectedDb Spec.selectedDb Spec.isTemplateName Spec.selectedRel
+  delta Spec.expectedDump Spec.expectedDb Spec.selectedDb Spec.selectedRel
   simp only [strBytes_eq]
   decide
 
@@ -489,7 +561,8 @@ theorem exA03_WF : exA03.WF := by
 /-- the run-time form of the theorem's hypotheses accepts the three former witnesses (no version hint) -/
 example : Model.ClusterHyp.dumpHypB exA01z {} = true ∧ Model.ClusterHyp.dumpHypB exA04 {} = true ∧
     Model.ClusterHyp.dumpHypB exA03 {} = true := by
-  simp only [Model.ClusterHyp.dumpHypB, Model.ClusterHyp.dumpableB, Spec.selectedDb, Spec.isTemplateName, Spec.selectedRel, strBytes_eq]
+  simp only [Model.ClusterHyp.dumpHypB, Model.ClusterHyp.dumpableB, Spec.selectedDb, Spec.TemplatesByName, Spec.isTemplateName,
+    Spec.A02Free, Spec.selectedRel, strBytes_eq]
   decide
 
 /-- **The three former witnesses are dumped correctly.**  On the file trees of the clusters that witnessed A01z (a table
@@ -501,7 +574,8 @@ theorem C01_former_witnesses (dec : Dec) (hd : CatDec dec) (π : MapOrder TableI
     r.map normDb = Spec.expectedDump (varlenaVal dec) c {} := by
   have hb : Model.ClusterHyp.dumpHypB exA01z {} = true ∧ Model.ClusterHyp.dumpHypB exA04 {} = true ∧
       Model.ClusterHyp.dumpHypB exA03 {} = true := by
-    simp only [Model.ClusterHyp.dumpHypB, Model.ClusterHyp.dumpableB, Spec.selectedDb, Spec.isTemplateName, Spec.selectedRel, strBytes_eq]
+    simp only [Model.ClusterHyp.dumpHypB, Model.ClusterHyp.dumpableB, Spec.selectedDb, Spec.TemplatesByName, Spec.isTemplateName,
+      Spec.A02Free, Spec.selectedRel, strBytes_eq]
     decide
   rcases hc with rfl | rfl | rfl
   · exact C01_dump_checked dec hd π hπ _ exA01z_WF {} hb.1 r h
@@ -516,7 +590,7 @@ example : ((Spec.expectedDump (fun b _ => pure (.int b.length)) exA01z {}).map f
       d.tables.map fun t => (t.columns.map (·.name), t.rowCount)) = [[([[105, 100], [110]], 1)]] ∧
     ((Spec.expectedDump (fun b _ => pure (.int b.length)) exA03 {}).map fun d =>
       d.tables.map fun t => (t.columns.length, t.rowCount, t.rows.map (·.length))) = [[(3, 1, [3])]] := by
-  delta Spec.expectedDump Spec.expectedDb Spec.selectedDb Spec.isTemplateName Spec.selectedRel
+  delta Spec.expectedDump Spec.expectedDb Spec.selectedDb Spec.selectedRel
   simp only [strBytes_eq]
   refine ⟨?_, ?_, ?_⟩
   · decide
@@ -541,6 +615,8 @@ example : ((Spec.expectedDump (fun b _ => pure (.int b.length)) exA01z {}).map f
 #print axioms C01_dump
 #print axioms C01_dump_returns
 #print axioms C01_dump_checked
+#print axioms C01_catDec_real
+#print axioms C01_dump_real
 #print axioms exCluster_WF
 #print axioms C01_former_witnesses
 
